@@ -37,7 +37,7 @@ def c03_m_ringitem_reorg(ctx, v):
             if o.kind in ("unsupported", "unwound", "path-limit"):
                 return v.undecided("k=%d %s %s" % (k, o.kind, o.info))
             if o.kind == "panic":
-                v.fail("k=%d panic %s" % (k, o.info))
+                L.report_panic(v, ex, o, "k=%d panic %s" % (k, o.info))
             if o.kind != "return":
                 continue
             it = o.state.frames[0].locals["_1"].v.cell.v
@@ -105,7 +105,7 @@ def c03_m_tx_wind_unwind(ctx, v):
                 if o.kind in ("unsupported", "unwound", "path-limit"):
                     return v.undecided("%dx%d %s %s" % (nin, nout, o.kind, o.info))
                 if o.kind == "panic":
-                    v.fail("%dx%d panic %s" % (nin, nout, o.info))
+                    L.report_panic(v, ex, o, "%dx%d panic %s" % (nin, nout, o.info))
                 if o.kind != "return":
                     continue
                 post = o.state.frames[0].locals["_2"].v.cell.v
@@ -367,9 +367,7 @@ def c03_m_block_reorg_step(ctx, v):
             if o.kind in ("unsupported", "unwound", "path-limit"):
                 return v.undecided("n=%d %s %s" % (n, o.kind, o.info))
             if o.kind == "panic":
-                v.queries += 1
-                if ex.feasible(o.pc):
-                    v.fail("n=%d: Block::on_chain_reorganization panics: %s" % (n, o.info))
+                L.report_panic(v, ex, o, "n=%d: Block::on_chain_reorganization panics: %s" % (n, o.info))
                 continue
             if o.kind != "return":
                 continue
@@ -395,5 +393,79 @@ def c03_m_block_reorg_step(ctx, v):
                 v.fail("n=%d: a transaction is applied / reverted with a flag other than the block's" % n)
                 continue
             ok += 1
+    v.covers_total += 1
+    v.covers_sat += 1 if ok else 0
+
+
+def c03_m_ringitem_delete(ctx, v):
+    """RingItem::delete_block(id, hash) on a slot with 1..=3 entries (thorough 4), pairwise
+    different blocks, symbolic ids and full 32-byte hashes, any designation (None or any
+    position), deleting the entry at each position: afterwards the slot holds exactly the other
+    entries (as (id, hash) pairs, in any order — an implementation may reorder), and the
+    designation follows the same BLOCK: if the designated entry survives it is still the one
+    designated, wherever it now sits; if it was the deleted one (or there was none) there is
+    none."""
+    from .models import as_enum, enum_is, payload
+    body = ctx.body(r"ringitem::<impl at [^>]*>::delete_block$")
+    ok = 0
+    for k in ((1, 2, 3) if ctx.tier == "quick" else (1, 2, 3, 4)):
+        for j in range(k):
+            ex = ctx.executor(loop_bound=k + 3, inline="auto", max_paths=4000)
+            item, ids, hs = _ringitem(ctx, ex, "slot", k)
+            p_some = z3.Bool("designation_present")
+            p_idx = z3.BitVec("designated_position", 64)
+            lc = S.EnumV("Option<usize>", None, S.I(z3.If(p_some, z3.BitVecVal(1, 64), z3.BitVecVal(0, 64)), True))
+            lc.payload["Some"] = S.Agg("variant", "Some", [S.I(p_idx)])
+            item.fields[ctx.field_index("RingItem", "lc_pos")] = lc
+            st = S.State()
+            st.pc.append(z3.ULT(p_idx, k))
+            same_block = lambda a, b: z3.And(ids[a].bv == ids[b].bv, value_eq(ex, hs[a], hs[b]))
+            st.pc.extend([z3.Not(same_block(a, b)) for a in range(k) for b in range(a)])
+            outs = ex.run(body, [S.Ref(S.Cell(item), (), True), ids[j], hs[j]], st)
+            v.paths += len(outs)
+            for o in outs:
+                if o.kind in ("unsupported", "unwound", "path-limit"):
+                    return v.undecided("k=%d j=%d %s %s" % (k, j, o.kind, o.info))
+                if o.kind == "panic":
+                    L.report_panic(v, ex, o, "k=%d: RingItem::delete_block panics: %s" % (k, o.info))
+                    continue
+                if o.kind != "return":
+                    continue
+                post = ex.deref_value(o.state.frames[0].locals["_1"].v)
+                pids = post.fields[ctx.field_index("RingItem", "block_ids")]
+                phs = post.fields[ctx.field_index("RingItem", "block_hashes")]
+                if not (isinstance(pids, S.Seq) and isinstance(phs, S.Seq)):
+                    return v.undecided("post-state lists are not concrete-length sequences")
+                if len(pids.items) != k - 1 or len(phs.items) != k - 1:
+                    v.queries += 1
+                    if ex.feasible(o.pc):
+                        L.fail_structural(v, o, "k=%d: after deleting one of %d different blocks the slot holds %d ids / %d hashes" % (k, k, len(pids.items), len(phs.items)))
+                    continue
+                at = lambda q, i: z3.And(pids.items[q].bv == ids[i].bv, value_eq(ex, phs.items[q], hs[i]))
+                bad = False
+                for i in range(k):
+                    if i == j:
+                        continue
+                    v.queries += 1
+                    if ex.feasible(o.pc, z3.Not(z3.Or(*[at(q, i) for q in range(k - 1)]))):
+                        L.fail_structural(v, o, "k=%d: deleting entry %d lost or altered entry %d" % (k, j, i))
+                        bad = True
+                e = as_enum(ex, post.fields[ctx.field_index("RingItem", "lc_pos")], "Option")
+                is_some = enum_is(ex, e, "Some")
+                survives = z3.And(p_some, p_idx != j)
+                v.queries += 1
+                if ex.feasible(o.pc, is_some != survives):
+                    L.fail_structural(v, o, "k=%d: deleting entry %d: the slot's designation is %s although the designated block %s" % (k, j, "kept/created", "was deleted or absent") if ex.feasible(o.pc, z3.And(is_some, z3.Not(survives)))
+                           else "k=%d: deleting entry %d clears the designation of a surviving block" % (k, j))
+                    bad = True
+                elif k > 1:
+                    idx = payload(ex, e, "Some")
+                    if isinstance(idx, S.I):
+                        wrong = z3.And(survives, z3.Not(z3.Or(*[z3.And(idx.bv == q, z3.Or(*[z3.And(p_idx == i, at(q, i)) for i in range(k) if i != j])) for q in range(k - 1)])))
+                        v.queries += 1
+                        if ex.feasible(o.pc, wrong):
+                            L.fail_structural(v, o, "k=%d: deleting entry %d moves the longest-chain designation to a different block" % (k, j))
+                            bad = True
+                ok += 0 if bad else 1
     v.covers_total += 1
     v.covers_sat += 1 if ok else 0
